@@ -26,6 +26,7 @@ import Apko.Proofs.Lemmas.FormatsIdbSample
 import Apko.Proofs.Lemmas.FormatsCodec
 import Apko.Proofs.Lemmas.FormatsIdbTotal
 import Apko.Proofs.Lemmas.FormatsSortComplete
+import Apko.Proofs.Lemmas.FormatsSortNodup
 
 namespace Apko.C16
 open Apko Apko.Formats
@@ -451,5 +452,13 @@ example : treeOK (⟨"README".toList, false, 0o644, 0, 0, []⟩ :: ⟨"tmp".toLi
     (⟨"README".toList, false, 0o644, 0, 0, []⟩ :: ⟨"tmp".toList, true, 0o1777, 0, 0, []⟩ :: sampleFiles).filter
       (fun x => !emitted (⟨"README".toList, false, 0o644, 0, 0, []⟩ :: ⟨"tmp".toList, true, 0o1777, 0, 0, []⟩ :: sampleFiles) x)
       = [⟨"README".toList, false, 0o644, 0, 0, []⟩, ⟨"tmp".toList, true, 0o1777, 0, 0, []⟩] := by decide
+
+/-- `sortTarHeaders_perm`: with names that are also distinct as a list, the output is a permutation of
+the kept records — every kept record is listed exactly once -/
+theorem sortTarHeaders_perm (hs : List FileRec) (ht : treeOK hs = true) (hn : namesNodup hs = true) :
+    ∃ out, sortHeaders hs = some out ∧ out.Perm (hs.filter (emitted hs)) :=
+  sortHeaders_perm hs (treeOK_spec hs ht) hn
+
+example : namesNodup sampleFiles = true := by decide
 
 end Apko.C16
